@@ -2,7 +2,7 @@
 # tools/seedtest.sh <PROP> <dir-with-patch.diff-and-demo.py> [check args...]
 # Confirms a seeded change in a scratch copy of /repo (tests pass, demo fails with / passes without), then runs ./check <PROP> against it.
 set -u
-P=$1; D=$2; shift 2
+P=$1; D=$(readlink -f "$2"); shift 2
 S=$(mktemp -d /tmp/sw_${P}_XXXX)
 trap 'rm -rf "$S" /tmp/ev_$$' EXIT
 git -C /repo archive HEAD | tar -x -C "$S"
